@@ -138,8 +138,8 @@ fn steer_points(bytes: &[u8], rng: &mut Rng) -> (Vec<u64>, (u64, u64), bool) {
         }
         let step = (w.entries.len() / 40).max(1);
         for e in w.entries.iter().step_by(step) {
-            let end = e.tile_id + u64::from(e.run_length);
-            s.extend([e.tile_id.saturating_sub(1), e.tile_id, e.tile_id + 1, end - 1, end, end + 1]);
+            let end = e.tile_id.saturating_add(u64::from(e.run_length));
+            s.extend([e.tile_id.saturating_sub(1), e.tile_id, e.tile_id.saturating_add(1), end - 1, end, end.saturating_add(1)]);
         }
         // bounds whose distance to an entry is k*2^32 + d with d inside the run (narrowing casts alias them onto the run)
         for e in w.entries.iter().step_by((w.entries.len() / 6).max(1)) {
@@ -151,11 +151,11 @@ fn steer_points(bytes: &[u8], rng: &mut Rng) -> (Vec<u64>, (u64, u64), bool) {
             }
         }
         if let Some(e) = w.entries.last() {
-            let end = e.tile_id + u64::from(e.run_length);
-            s.extend([end - 1, end, end + 1]);
+            let end = e.tile_id.saturating_add(u64::from(e.run_length));
+            s.extend([end - 1, end, end.saturating_add(1)]);
         }
         if let Some(e) = w.entries.first() {
-            s.extend([e.tile_id.saturating_sub(1), e.tile_id, e.tile_id + 1]);
+            s.extend([e.tile_id.saturating_sub(1), e.tile_id, e.tile_id.saturating_add(1)]);
         }
     }
     for _ in 0..6 {
@@ -221,10 +221,10 @@ fn archives(ctx: &Ctx, i: u64) -> Arch {
             l.class = String::from("unique-short-contents/no-codec");
         }
         if i % 20 == 11 || i % 20 == 19 {
-            // tile ids beyond the last z/x/y-addressable id (add_tile takes any u64): open-ended ranges must reach them
+            // tile ids beyond the last z/x/y-addressable id, up to u64::MAX (add_tile takes any u64): open-ended ranges must reach them
             let dom = gen::id_domain();
             let c = std::rc::Rc::new(vec![0xD1u8, 0xD2, 0xD3]);
-            for id in [dom - 1, dom, dom + 1, 1u64 << 62, 1u64 << 63, u64::MAX - 4, u64::MAX - 3] {
+            for id in [dom - 1, dom, dom + 1, 1u64 << 62, 1u64 << 63, u64::MAX - 1, u64::MAX] {
                 l.tiles.insert(id, c.clone());
             }
             l.class.push_str("/ids-beyond-zoom-31");
